@@ -295,6 +295,7 @@ func newSession(snowflakes SnowflakeCollector) (net.PacketConn, *smux.Session, e
 		if conn == nil {
 			return nil, errors.New("handler: Received invalid Snowflake")
 		}
+		vhook("dial.popped", conn.id)
 		log.Println("---- Handler: snowflake assigned ----")
 		// Send the magic Turbo Tunnel token.
 		_, err := conn.Write(turbotunnel.Token[:])
@@ -306,6 +307,7 @@ func newSession(snowflakes SnowflakeCollector) (net.PacketConn, *smux.Session, e
 		if err != nil {
 			return nil, err
 		}
+		vhook("dial.up", conn.id, clientID)
 		return newEncapsulationPacketConn(dummyAddr{}, dummyAddr{}, conn), nil
 	}
 	pconn := turbotunnel.NewRedialPacketConn(dummyAddr{}, dummyAddr{}, dialContext)
